@@ -345,14 +345,24 @@ impl<D: DataMut> ReaderFrom for VecZnx<D> {
         let new_max_size: usize = reader.read_u64::<LittleEndian>()? as usize;
         let len: usize = reader.read_u64::<LittleEndian>()? as usize;
 
-        // Validate metadata consistency: n * cols * size * sizeof(i64) must match data length.
-        let expected_len: usize = new_n * new_cols * new_size * size_of::<i64>();
-        if expected_len != len {
+        // Validate metadata consistency: n * cols * size * sizeof(i64) must match data length
+        // (checked arithmetic: a corrupted header must be rejected, not overflow).
+        let expected_len: Option<usize> = new_n
+            .checked_mul(new_cols)
+            .and_then(|x| x.checked_mul(new_size))
+            .and_then(|x| x.checked_mul(size_of::<i64>()));
+        if expected_len != Some(len) {
             return Err(std::io::Error::new(
                 std::io::ErrorKind::InvalidData,
                 format!(
-                    "VecZnx metadata inconsistent: n={new_n} * cols={new_cols} * size={new_size} * 8 = {expected_len} != data len={len}"
+                    "VecZnx metadata inconsistent: n={new_n} * cols={new_cols} * size={new_size} * 8 = {expected_len:?} != data len={len}"
                 ),
+            ));
+        }
+        if new_size > new_max_size {
+            return Err(std::io::Error::new(
+                std::io::ErrorKind::InvalidData,
+                format!("VecZnx metadata inconsistent: size={new_size} > max_size={new_max_size}"),
             ));
         }
 
@@ -363,13 +373,19 @@ impl<D: DataMut> ReaderFrom for VecZnx<D> {
                 format!("VecZnx buffer too small: self.data.len()={} < read len={len}", buf.len()),
             ));
         }
+        let buf_len: usize = buf.len();
         reader.read_exact(&mut buf[..len])?;
 
         // Only commit metadata after successful read.
         self.n = new_n;
         self.cols = new_cols;
         self.size = new_size;
-        self.max_size = new_max_size;
+        // The limb capacity is bounded by what the receiver's buffer can actually hold.
+        self.max_size = match new_n.checked_mul(new_cols).and_then(|x| x.checked_mul(size_of::<i64>())) {
+            Some(0) => new_max_size,
+            Some(limb_bytes) => new_max_size.min(buf_len / limb_bytes),
+            None => new_size,
+        };
         Ok(())
     }
 }
